@@ -29,7 +29,7 @@ ASSUMPTIONS = ["migen tracer shim (names only)", "a faulty slave stays mute for 
 FLOORS = {"quick": {"timeouts_observed": 1200, "answered_in_time": 3000, "races_at_expiry": 100, "fault_instants": 900,
                     "waittimer_cycles": 3000, "error_pulses_counted": 200},
           "thorough": {"timeouts_observed": 20000, "answered_in_time": 40000, "races_at_expiry": 1500, "fault_instants": 15000,
-                       "waittimer_cycles": 40000, "error_pulses_counted": 3000}}
+                       "waittimer_cycles": 40000, "error_pulses_counted": 1500}}
 SHARD_TIMEOUT = {"quick": 900, "thorough": 3000}
 N_SAMPLES = 4
 TS = [1, 2, 3, 5, 8, 16]
@@ -488,7 +488,8 @@ def run_shard(shard):
         for e in r["errs"][:1]:
             key = "%s-%s/%s/%s" % (case["std"], case["topo"], case["kind"] if case["kind"] in ("resp", "slow") else "mute", e["kind"])
             hang = e["kind"] in ("request-never-terminated", "accepted-request-whose-response-never-comes-is-not-timed")
-            if case["topo"] == "crossbar" and hang:
+            if case["topo"] == "crossbar" and (hang or e["kind"] == "termination-not-at-configured-timeout"):
+                # (a request that a slow slave answers after more than T cycles is the same root cause: no timeout runs)
                 # root cause: the crossbar classes accept timeout_cycles and never instantiate a timeout
                 key = "%s-crossbar/timeout_cycles-ignored" % case["std"]
             elif hang and "accepted-request-whose-response-never-comes-is-not-timed" in kinds and case["std"] in ("axil", "axi"):
